@@ -37,7 +37,7 @@ package internal
 //@   ensures (err == nil) == (result != nil)
 //@   ensures [C02:key-carries-row-stamp] err == nil ==> fresh(result) && result.created == created && result.secret != nil && live(result.secret) && fresh(result.secret) && valid(result.secret)
 //@   modifies live
-//@   ensures [C09:only-the-key-s-secret-is-new] forall s securememory.Secret :: live(s) && !old(live(s)) ==> err == nil && s == result.secret
+//@   ensures [C09:only-the-key-s-secret-is-new] forall s securememory.Secret :: live(s) && !old(live(s)) ==> fresh(s) && err == nil && s == result.secret
 //@   ensures [C09:nothing-released] forall s securememory.Secret :: old(live(s)) ==> live(s)
 
 // ---- Revokable: observers without heap effect ----
@@ -55,7 +55,7 @@ package internal
 //@   modifies live
 //@   ensures (err == nil) == (result != nil)
 //@   ensures err == nil ==> fresh(result) && result.created == created && result.secret != nil && live(result.secret) && fresh(result.secret) && valid(result.secret)
-//@   ensures [C09:only-the-key-s-secret-is-new] forall s securememory.Secret :: live(s) && !old(live(s)) ==> err == nil && s == result.secret
+//@   ensures [C09:only-the-key-s-secret-is-new] forall s securememory.Secret :: live(s) && !old(live(s)) ==> fresh(s) && err == nil && s == result.secret
 //@   ensures [C09:nothing-released] forall s securememory.Secret :: old(live(s)) ==> live(s)
 
 // Close is idempotent through sync.Once: once it has returned, the key's secret has been closed.
